@@ -1,6 +1,6 @@
 (* C06 -- the general theorems of ClosureThm.v specialised to the configuration regenerated from /repo, plus the finite
    facts about the regenerated tables (checked by vm_compute).  These are the statements that break when the source changes. *)
-From Verif Require Import Closure ClosureThm ClosureInst StropThmInst.
+From Verif Require Import Closure ClosureThm ClosureInst StropThmInst IsoHeaders.
 Open Scope N_scope.
 
 (* the include side (IncludeGenerator.generate_include_filepart_list) and the output side (Namespace._add_data_type) call
@@ -19,8 +19,8 @@ Proof. repeat split; vm_compute; reflexivity. Qed.
 
 Lemma cfg_idt_agree l st ext sns files pref std stem_ dflt ti hn :
   let c := mk_cfg l st ext sns files pref std stem_ dflt ti hn in
-  lc_inc_short_idt c = lc_out_short_idt c /\ lc_inc_ns_idt c = lc_out_ns_idt c /\ lc_out_ns_idt c = lc_dir_idt c.
-Proof. cbn. repeat split; vm_compute; reflexivity. Qed.
+  lc_inc_short_idt c = lc_out_short_idt c /\ lc_inc_ns_idt c = lc_out_ns_idt c /\ lc_out_ns_idt c = lc_dir_idt c /\ lc_ext c = lc_out_ext c.
+Proof. cbn. repeat split; try (vm_compute; reflexivity). destruct l; vm_compute; reflexivity. Qed.
 
 Theorem includes_closed_c : forall q omit ts t i,
   closed q ts = true -> In t ts -> In i (include_list c_cfg q omit t) ->
@@ -35,13 +35,90 @@ Theorem includes_closed_cpp : forall std hv q omit ts t i,
   \/ In i (lc_std (cpp_cfg std hv) (direct q t)) \/ In i (lit_includes cpp_tmpl_includes omit).
 Proof. intros. eapply (includes_closed_gen (cpp_cfg std hv)); eauto; try apply cfg_idt_agree. Qed.
 
+(* ---- includes, STRICT form: generated, or an ISO standard header (committed table, Gen/IsoHeaders.v), or -- C++ only -- a third-party
+        header under the one --language-standard that selects it.  Whatever else get_includes / base.j2 / the option presets add makes
+        these facts (and the theorems below) fail. ---- *)
+Lemma c_extras_iso : forallb is_iso_c (map (fun p => angle (snd p)) c_get_includes ++ map snd c_tmpl_includes) = true.
+Proof. vm_compute. reflexivity. Qed.
+
+Lemma cpp_extras_iso : forallb is_iso_cpp (map (fun p => angle (snd p)) cpp_get_includes ++ map snd cpp_tmpl_includes) = true.
+Proof. vm_compute. reflexivity. Qed.
+
+Definition tail_ok (std h : str) : bool := match h with [] => true | _ => is_iso_cpp h || str_in h (third_party_allowed std) end.
+Lemma cpp_tails_ok : forallb (fun p => tail_ok (fst p) (fst (snd p)) && tail_ok (fst p) (snd (snd p))) cpp_option_includes = true.
+Proof. vm_compute. reflexivity. Qed.
+
+Lemma table_includes_in tbl fl st hv i : In i (table_includes tbl fl st hv) -> exists p, In p tbl /\ i = angle (snd p).
+Proof. unfold table_includes. intros H. apply in_map_iff in H. destruct H as [p [<- Hp]]. apply filter_In in Hp. exists p. tauto. Qed.
+
+Lemma lit_includes_in tbl pod i : In i (lit_includes tbl pod) -> exists p, In p tbl /\ i = snd p.
+Proof. unfold lit_includes. intros H. apply in_map_iff in H. destruct H as [p [<- Hp]]. apply filter_In in Hp. exists p. tauto. Qed.
+
+Theorem includes_strict_c : forall q omit ts t i,
+  closed q ts = true -> In t ts -> In i (include_list c_cfg q omit t) ->
+  In i (map (punct c_cfg) (outputs c_cfg ts)) \/ (omit = false /\ In i (map (punct c_cfg) (support_outputs c_cfg))) \/ is_iso_c i = true.
+Proof.
+  intros q omit ts t i Hc Ht Hi. pose proof c_extras_iso as F. rewrite forallb_forall in F.
+  destruct (includes_closed_c q omit ts t i Hc Ht Hi) as [H|[H|[H|H]]]; auto; right; right; apply F; apply in_or_app.
+  - left. change (lc_std c_cfg (direct q t)) with (table_includes c_get_includes (flags_of (direct q t)) c_std_types false) in H.
+    apply table_includes_in in H. destruct H as [p [Hp ->]]. apply in_map_iff. exists p. auto.
+  - right. apply lit_includes_in in H. destruct H as [p [Hp ->]]. apply in_map. exact Hp.
+Qed.
+
+Lemma assoc_in {A} k (l : list (str * A)) v : assoc k l = Some v -> In (k, v) l.
+Proof.
+  induction l as [|[k' v'] l IH]; cbn [assoc]; [discriminate|]. destruct (str_eqb_spec k k').
+  - intros E. inversion E; subst. left; reflexivity.
+  - intros E. right. auto.
+Qed.
+
+Theorem includes_strict_cpp : forall std hv q omit ts t i,
+  closed q ts = true -> In t ts -> In i (include_list (cpp_cfg std hv) q omit t) ->
+  In i (map (punct (cpp_cfg std hv)) (outputs (cpp_cfg std hv) ts))
+  \/ (omit = false /\ In i (map (punct (cpp_cfg std hv)) (support_outputs (cpp_cfg std hv))))
+  \/ is_iso_cpp i = true
+  \/ In i (third_party_allowed std).
+Proof.
+  intros std hv q omit ts t i Hc Ht Hi. pose proof cpp_extras_iso as F. rewrite forallb_forall in F.
+  destruct (includes_closed_cpp std hv q omit ts t i Hc Ht Hi) as [H|[H|[H|H]]]; auto.
+  - unfold cpp_cfg, mk_cfg in H. cbn [lc_std] in H. apply in_app_or in H. destruct H as [H|H].
+    + right; right; left. apply F. apply in_or_app. left. apply table_includes_in in H. destruct H as [p [Hp ->]]. apply in_map_iff. exists p. auto.
+    + right; right.
+      destruct (assoc std cpp_option_includes) as [[a v]|] eqn:E.
+      * apply assoc_in in E. pose proof cpp_tails_ok as T. rewrite forallb_forall in T. specialize (T _ E). cbn [fst snd] in T, H.
+        apply andb_true_iff in T. destruct T as [Ta Tv].
+        assert (G : forall h, tail_ok std h = true -> h <> [] -> is_iso_cpp h = true \/ In h (third_party_allowed std)).
+        { intros h Hok Hne. unfold tail_ok in Hok. destruct h; [congruence|]. apply orb_true_iff in Hok. destruct Hok as [Hok|Hok]; auto.
+          right. apply str_in_spec. exact Hok. }
+        unfold cpp_tail in H. apply in_app_or in H. destruct H as [H|H].
+        -- destruct a; [contradiction|]. destruct H as [<-|[]]. apply G; [exact Ta|discriminate].
+        -- destruct (flags_of (direct q t) FVla); [|contradiction]. destruct v; [contradiction|]. destruct H as [<-|[]]. apply G; [exact Tv|discriminate].
+      * cbn [fst snd] in H. unfold cpp_tail in H. cbn [app] in H. destruct (flags_of (direct q t) FVla); cbn in H; contradiction.
+  - right; right; left. apply F. apply in_or_app. right. apply lit_includes_in in H. destruct H as [p [Hp ->]]. apply in_map. exact Hp.
+Qed.
+
+(* no third-party header for the ISO flavours: the allowed set is empty unless the standard is the cetl preset *)
+Lemma third_party_only_cetl std : std <> s_cetl_std -> third_party_allowed std = [].
+Proof. intros H. unfold third_party_allowed. destruct (str_eqb_spec std s_cetl_std); [contradiction|reflexivity]. Qed.
+
+(* R1-5: the two extension sources resolve to the same configured extension; R1-8: cpp base.j2 applies open_namespace and close_namespace
+   once each, to the same expression, open first *)
+Definition s_full_ns : str := [84;46;102;117;108;108;95;110;97;109;101;115;112;97;99;101].     (* T.full_namespace *)
+Lemma extension_sources_agree :
+  lc_ext c_cfg = c_ext /\ lc_out_ext c_cfg = c_ext /\ (forall std hv, lc_ext (cpp_cfg std hv) = cpp_ext /\ lc_out_ext (cpp_cfg std hv) = cpp_ext)
+  /\ lc_ext py_cfg = py_ext /\ lc_out_ext py_cfg = py_ext.
+Proof. repeat split; vm_compute; reflexivity. Qed.
+
+Lemma namespace_sites : cpp_open_ns_args = [s_full_ns] /\ cpp_close_ns_args = [s_full_ns] /\ cpp_open_before_close = true.
+Proof. repeat split; vm_compute; reflexivity. Qed.
+
 Theorem py_imports_closed : forall q ts t ns p,
   closed q ts = true -> In t ts -> In ns (import_namespaces t) -> In p (prefixes ns) ->
   In (import_target py_cfg p) (ns_outputs py_cfg ts).
 Proof. intros. eapply (py_imports_closed_gen py_cfg); eauto. Qed.
 
 Theorem py_type_file_in_package_dir : forall t,
-  exists f, make_path (lc_sid py_cfg) (lc_stropping py_cfg) (lc_out_short_idt py_cfg) (lc_out_ns_idt py_cfg) (lc_ext py_cfg) t
+  exists f, make_path (lc_sid py_cfg) (lc_stropping py_cfg) (lc_out_short_idt py_cfg) (lc_out_ns_idt py_cfg) (lc_out_ext py_cfg) t
             = ns_dir (lc_sid py_cfg) (lc_dir_idt py_cfg) (ti_ns t) ++ [f].
 Proof. intros. apply type_file_in_package_dir; vm_compute; reflexivity. Qed.
 
@@ -106,7 +183,7 @@ Theorem py_init_imports_closed : forall ts d,
   In d ts -> forallb valid_ident (ti_ns (td_id d)) = true -> valid_ident (versioned (td_id d)) = true ->
   str_eqb (stem (short_ref (lc_sid py_cfg) (lc_stropping py_cfg) (lc_default_idt py_cfg) (td_id d)))
           (short_ref (lc_sid py_cfg) (lc_stropping py_cfg) (lc_default_idt py_cfg) (td_id d)) = true ->
-  In (posix (removelast (init_import_module py_cfg (td_id d)) ++ [last (init_import_module py_cfg (td_id d)) [] ++ lc_ext py_cfg]))
+  In (posix (removelast (init_import_module py_cfg (td_id d)) ++ [last (init_import_module py_cfg (td_id d)) [] ++ lc_out_ext py_cfg]))
      (outputs py_cfg ts).
 Proof.
   intros ts d Hd Hns Hv Hst.
